@@ -10,6 +10,7 @@ from ...schema import (
     EnumType,
     GraphQLType,
     InputObjectType,
+    ListType,
     NonNullType,
     ScalarType,
     unwrap_type,
@@ -93,6 +94,21 @@ class ValuesOfCorrectTypeChecker(ValidationVisitor):
                 input_type.get_value(node.value)
             except UnknownEnumValue:
                 self._report_bad_value(input_type, node)
+
+    def enter_list_value(self, node):
+        # The type info visitor has already moved on to the item type, the
+        # type expected for the list itself is one level up.
+        input_type = self.type_info.parent_list_input_type
+        if input_type is None:
+            return
+
+        nullable = (
+            input_type.type
+            if isinstance(input_type, NonNullType)
+            else input_type
+        )
+        if not isinstance(nullable, ListType):
+            self._report_bad_value(input_type, node)
 
     def enter_object_value(self, node):
         named_type = (
